@@ -268,6 +268,15 @@ func checkFaithful(dec *TOMLDeviceConfig, cfg *Config, err error) {
 		}
 	}
 	for _, m := range dec.KeyMappings {
+		for _, sub := range m.KeyMapping {
+			for _, v := range sub.Map {
+				if ok, _, _ := refKeyValue(v); !ok {
+					verifrt.Assert(!accepted, "C10: a key whose note or channel offset is malformed or out of range is rejected")
+				}
+			}
+		}
+	}
+	for _, m := range dec.KeyMappings {
 		for _, am := range m.AnalogMapping {
 			for _, e := range am.Map {
 				switch MappingType(e.Type) {
@@ -370,12 +379,73 @@ func checkFaithful(dec *TOMLDeviceConfig, cfg *Config, err error) {
 			if len(sub.Map) != 1 {
 				continue
 			}
-			for name := range sub.Map {
+			for name, val := range sub.Map {
 				code, e2 := TomlKeyToEvCode(name, evdev.KEYFromString)
 				verifrt.Assert(e2 == nil, "C10: accepted files have only known key names")
 				k, ok := km.Midi[sub.SubHandler][code]
 				verifrt.Assert(ok && k.Note <= 127 && k.ChannelOffset <= 15, "C10: every key of the file is in the configuration, in range")
+				okRef, wantNote, wantOff := refKeyValue(val)
+				verifrt.Assert(okRef && k.Note == wantNote && k.ChannelOffset == wantOff, "C10: every key has the note and channel offset the file says")
 			}
 		}
 	}
+}
+
+// refAtoi: independent reading of a decimal integer as strconv.Atoi accepts it (optional sign, digits only);
+// strings of the lengths used here cannot overflow.
+func refAtoi(s string) (int, bool) {
+	i, neg := 0, false
+	if len(s) > 0 && (s[0] == '+' || s[0] == '-') {
+		neg = s[0] == '-'
+		i = 1
+	}
+	if i >= len(s) || len(s) > 9 {
+		return 0, false
+	}
+	v := 0
+	for ; i < len(s); i++ {
+		if s[i] < '0' || s[i] > '9' {
+			return 0, false
+		}
+		v = v*10 + int(s[i]-'0')
+	}
+	if neg {
+		v = -v
+	}
+	return v, true
+}
+
+// refKeyValue: what a key entry "note" or "note,offset" means: note a number 0..127 or a note name, offset a
+// number 0..15 (default 0); anything else is invalid.
+func refKeyValue(s string) (ok bool, note, off uint8) {
+	comma, commas := -1, 0
+	for i := 0; i < len(s); i++ {
+		if s[i] == ',' {
+			commas++
+			if comma < 0 {
+				comma = i
+			}
+		}
+	}
+	if commas > 1 {
+		return false, 0, 0
+	}
+	noteRaw, offRaw := s, "0"
+	if commas == 1 {
+		noteRaw, offRaw = s[:comma], s[comma+1:]
+	}
+	o, okO := refAtoi(offRaw)
+	if !okO || o < 0 || o > 15 {
+		return false, 0, 0
+	}
+	if n, okN := refAtoi(noteRaw); okN {
+		if n < 0 || n > 127 {
+			return false, 0, 0
+		}
+		return true, uint8(n), uint8(o)
+	}
+	if okName, n := refNote(noteRaw); okName {
+		return true, n, uint8(o)
+	}
+	return false, 0, 0
 }
